@@ -578,6 +578,60 @@ def version_stage(ctx: vlib.Ctx, exe: str | None) -> None:
             if m == "raise" or tz(m) != x:
                 ctx.broke("C", "and/or/not table vs infer_condition_value", f"{l}: model {m} impl {x}")
     ctx.add("evaluations", len(lines))
+    # nested not/and/or through the real infer_condition_value vs Cond.infer_cond (infer_condition_value_compositional)
+    leaves = {"AT": 1, "TYPE_CHECKING": 2, "MYPY": 2, "AF": 3, "PY2": 3, "PY3": 1, "unknown_name": 5, "sys.platform == 'nope'": 3}
+    rngc = vlib.Rng(ctx.seed, "nested-cond")
+
+    def gen(depth: int) -> tuple[str, list[str]]:
+        if depth == 0 or rngc.random() < 0.2:
+            k = rngc.choice(sorted(leaves))
+            return k, [zt(leaves[k])]
+        if rngc.random() < 0.3:
+            s1, t1 = gen(depth - 1)
+            return f"(not {s1})", t1 + ["!"]
+        o = rngc.choice(["and", "or"])
+        (s1, t1), (s2, t2) = gen(depth - 1), gen(depth - 1)
+        return f"({s1} {o} {s2})", t1 + t2 + ["&" if o == "and" else "|"]
+    o.platform = "linux"
+    nest = [gen(rngc.choice([2, 3, 4])) for _ in range(ctx.n(400, 4000))]
+    for k in leaves:
+        assert R.infer_condition_value(parse_expr(k), o) == leaves[k], k
+    real = [R.infer_condition_value(parse_expr(srcn), o) for srcn, _ in nest]
+    if exe:
+        outn = run_driver(exe, ["cond " + " ".join(t) for _, t in nest])
+        for (srcn, _), mv, rv in zip(nest, outn, real):
+            if mv == "raise" or tz(mv) != rv:
+                ctx.broke("C", "Cond.infer_cond vs infer_condition_value on nested conditions", f"{srcn}: model {mv} impl {rv}")
+                break
+        ctx.add("traces_validated_against_impl", len(nest))
+    ctx.add("evaluations", len(nest))
+    ctx.cov["nested_conditions"] = len(nest)
+    # if/elif/else chains: real infer_reachability_of_if_statement vs Chain.chain_marks, all chains of <= 3 conditions x else / no else
+    from mypy.fastparse import parse as mparse
+    from mypy.errors import Errors
+    cnames = {1: "AT", 2: "TYPE_CHECKING", 3: "AF", 4: "(not TYPE_CHECKING)", 5: "unknown_name"}
+    clines, creal, cdesc = [], [], []
+    for nconds in (1, 2, 3):
+        for vals in itertools.product(sorted(cnames), repeat=nconds):
+            for has_else in (False, True):
+                srcc = "".join(("if " if i == 0 else "elif ") + cnames[v] + ":\n    pass\n" for i, v in enumerate(vals)) + ("else:\n    pass\n" if has_else else "")
+                # the parser nests `elif` as else: [IfStmt]; build the flat multi-condition IfStmt the function iterates over
+                from mypy.nodes import Block as MBlock, IfStmt as MIfStmt, PassStmt
+                st = MIfStmt([parse_expr(cnames[v]) for v in vals], [MBlock([PassStmt()]) for _ in vals], MBlock([PassStmt()]) if has_else else None)
+                R.infer_reachability_of_if_statement(st, o)  # type: ignore[arg-type]
+                flags = "".join("1" if b.is_unreachable else "0" for b in st.body)  # type: ignore[attr-defined]
+                eb = st.else_body  # type: ignore[attr-defined]
+                creal.append(flags + " " + ("1" if (eb is not None and eb.is_unreachable) else "0"))
+                clines.append("chain " + " ".join(zt(v) for v in vals))
+                cdesc.append(srcc.replace("\n", " "))
+    if exe:
+        for d, mv, rv in zip(cdesc, run_driver(exe, clines), creal):
+            if mv != rv:
+                ctx.broke("C", "Chain.chain_marks vs infer_reachability_of_if_statement", f"{d}: model {mv} impl {rv}")
+                break
+        ctx.add("traces_validated_against_impl", len(clines))
+    ctx.add("evaluations", len(clines))
+    ctx.cov["if_chains"] = len(clines)
     ctx.cov["exhaustive_tables"] = "and/or/not table: all 5x5x2+5 cells through infer_condition_value"
 
 
